@@ -110,6 +110,8 @@ class G(object):
         spec.update(kw)
         if self.rl.chance(0.2):
             spec["str_bools"] = True
+        if self.rl.chance(0.2):
+            spec["bool_backend"] = True
         self.nodes.append(spec)
         return spec
 
@@ -126,6 +128,8 @@ class G(object):
             spec["plain_config"] = True     # SP section inside a plain all-in-one Config object
         if self.rl.chance(0.25):
             spec["str_bools"] = True        # "true" / "false" strings instead of booleans in the service section
+        if self.rl.chance(0.2):
+            spec["bool_backend"] = True     # crypto back end whose validate_signature() returns False instead of raising
         self.nodes.append(spec)
         return spec
 
@@ -354,7 +358,11 @@ def gen_c04(seed, tier):
 def gen_c02(seed, tier):
     g = G(seed, "C02", tier)
     r = g.r
-    idp = g.add_idp(0)
+    if g.rl.chance(0.4):
+        # key roll-over in progress: two signing certificates published, the IdP signs with the old or the new key
+        idp = g.add_idp(0, extra_certs=[9], actual_key=g.rl.pick([0, 9, 9]))
+    else:
+        idp = g.add_idp(0)
     # the option table is enumerated completely: one SP per setting
     sps = []
     for i in range(8):
@@ -773,6 +781,11 @@ def gen_c17(seed, tier):
         sps.append(g.add_sp(i, enc_keys=g.rl.pick([[6 + 2 * i], [6 + 2 * i, 7 + 2 * i]]),
                             wrs=g.rl.chance(0.4), was=g.rl.chance(0.3), slack=g.rl.pick([None, 0, 3]),
                             allow_unsolicited=g.rl.chance(0.3)))
+        if g.rl.chance(0.3):
+            sps[-1]["md_enc_methods"] = g.rl.pick([
+                ["http://www.w3.org/2001/04/xmlenc#aes128-cbc", "http://www.w3.org/2001/04/xmlenc#rsa-oaep-mgf1p"],
+                ["http://www.w3.org/2009/xmlenc11#aes256-gcm"],
+                ["http://www.w3.org/2001/04/xmlenc#tripledes-cbc", "http://www.w3.org/2001/04/xmlenc#rsa-1_5"]])
     g.draw_skews(choices=(0, 0, 1, -1))
     clean = (seed % 3 == 0)
     g.knobs = {"class": "clean" if clean else "faulty"}
